@@ -67,6 +67,10 @@ MUTS = collections.OrderedDict([
     ("recycle_forgets_mapping", (SNAP, [("        Builder {\n            snap: self,\n            next_type_id,\n        }",
                                          "        self.extended_types.pop_first();\n        Builder {\n            snap: self,\n            next_type_id,\n        }")],
                                  "C10/")),
+    # the coordinator's seeded changes (seeded/C10-1, C10-2, C11-2: applied with `git apply`)
+    ("seeded_C10_1_recycle_numbers_after_greatest_uuid", (SNAP, "seeded/C10-1/patch.diff", "C10/recycle-then-add-fails")),
+    ("seeded_C10_2_reader_rejects_1024_items", (SNAP, "seeded/C10-2/patch.diff", "C10/roundtrip-rejected")),
+    ("seeded_C11_2_reserve_announced_size", (SNAP, "seeded/C11-2/patch.diff", "C11/allocation-exceeds-input-multiple")),
     ("d6_revert", (SNAP, [(".insert(uuid, key_to_id(item_key))", ".insert(uuid, raw_type_id)")], "C10/item-lookup-differs")),
     # reader validation ---------------------------------------------------------------------------
     ("offset_le_to_lt", (SNAP, [("                if offset <= prev_offset {", "                if offset < prev_offset {")], "C11/parser-panic")),
@@ -104,11 +108,15 @@ def main():
         rel, edits, want = MUTS[name]
         path = os.path.join(REPO, rel)
         src = open(path).read()
-        new = src
-        for a, b in edits:
-            assert a in new, "mutation %s: text not found in %s: %r" % (name, rel, a[:60])
-            new = new.replace(a, b, 1)
-        open(path, "w").write(new)
+        if isinstance(edits, str):
+            rc, out = sh(["git", "apply", os.path.join(V, edits)], cwd=REPO)
+            assert rc == 0, "mutation %s: git apply failed: %s" % (name, out)
+        else:
+            new = src
+            for a, b in edits:
+                assert a in new, "mutation %s: text not found in %s: %r" % (name, rel, a[:60])
+                new = new.replace(a, b, 1)
+            open(path, "w").write(new)
         try:
             rc, out = sh(["cargo", "build", "--offline", "--quiet"], cwd=os.path.join(V, "harness"))
             if rc != 0:
